@@ -136,7 +136,6 @@ def restIfaceCase (id : String) (payload : List Sexp) : List String :=
       ++ showIntended ispec
     let modelLines := (match generate iface with
       | .fatal => [("gen", "fatal")]
-      | .formatError => [("gen", "format")]
       | .ok _ false => [("gen", "nocompile")]
       | .ok plans true => [("gen", "ok")] ++ (idx.map (fun (c, k) =>
           match plans.find? (fun pl => pl.name == c.method) with
@@ -148,12 +147,12 @@ def restIfaceCase (id : String) (payload : List Sexp) : List String :=
 
 /-- C01 leg of the rest area: `(c01rest (i (hdoc …) (headers …) (methods …)) …)` — the interfaces one
     `shoot rest` run generates. Property C01: the run exits 0 and what it wrote compiles with the
-    package. The model says what the unchanged generator does (Q1: exit 1; Q2/Q5: does not compile). -/
+    package. The model says what the unchanged generator does (Q5: does not compile). -/
 def c01RestCase (id : String) (payload : List Sexp) : List String :=
   match payload.mapM (fun (p : Sexp) => parseIface p) with
   | some pairs =>
     let gens := pairs.map (fun x => generate x.1)
-    let exit1 := gens.any (fun g => g == GenRes.fatal || g == GenRes.formatError)
+    let exit1 := gens.any (fun g => g == GenRes.fatal)
     let nocompile := gens.any GenRes.failsToCompile
     let okLines := [("header", "ok"), ("gofmt", "ok"), ("package", "ok")]
     let modelLines := if exit1 then [("exit", "1")]
@@ -162,8 +161,6 @@ def c01RestCase (id : String) (payload : List Sexp) : List String :=
     let specs := pairs.map (·.2)
     let reg :=
       if specs.any (fun i => !structOk i) then "Out"
-      else if specs.any F_mixedCtx then "F_restMixedCtx"
-      else if specs.any F_bodyNoStruct then "F_restBodyNoStruct"
       else if specs.any F_ptrDict then "F_restPtrDict"
       else "WF"
     both id modelLines specLines reg
